@@ -727,3 +727,41 @@ func c05PacketNumbers(c *Ctx) {
 	}
 	c.Floor(R, "PopPacketNumber call sites in packers", n, 3)
 }
+
+// stringArrayVar evaluates a package-level `[...]string{...}` / `[]string{...}` variable initialiser.
+func (c *Ctx) stringArrayVar(pkg, name string) []string {
+	pk := c.P.Pkgs[pkgPathOf(pkg)]
+	if pk == nil {
+		panic(anchorErr{fmt.Errorf("unresolved anchor: package %s", pkg)})
+	}
+	for _, f := range pk.Syntax {
+		for _, d := range f.Decls {
+			gd, ok := d.(*ast.GenDecl)
+			if !ok || gd.Tok != token.VAR {
+				continue
+			}
+			for _, sp := range gd.Specs {
+				vs := sp.(*ast.ValueSpec)
+				for i, n := range vs.Names {
+					if n.Name != name || i >= len(vs.Values) {
+						continue
+					}
+					cl, ok := vs.Values[i].(*ast.CompositeLit)
+					if !ok {
+						panic(anchorErr{fmt.Errorf("unresolved anchor: %s.%s is not a composite literal", pkg, name)})
+					}
+					var out []string
+					for _, e := range cl.Elts {
+						tv := pk.TypesInfo.Types[e]
+						if tv.Value == nil || tv.Value.Kind() != constant.String {
+							panic(anchorErr{fmt.Errorf("non-constant element in %s.%s", pkg, name)})
+						}
+						out = append(out, constant.StringVal(tv.Value))
+					}
+					return out
+				}
+			}
+		}
+	}
+	panic(anchorErr{fmt.Errorf("unresolved anchor: var %s.%s", pkg, name)})
+}
